@@ -2,7 +2,7 @@
 # Fault enumeration: every JSON path of every seed manifest (all kinds the tool reads) x {drop, null, "", 0, [], {}, wrong
 # type, ...}, one mutation at a time, through list, list --exposure, diff and eval in-process (recovered panics) and the real
 # binary on a sample (exit status / "panic:" on stderr); plus a byte-level stream (truncation, junk bytes, indentation damage).
-import copy, json, os, subprocess
+import copy, ipaddress, json, os, re, subprocess
 from .lib import core, gen, listcorr
 
 NS = 'ns1'
@@ -213,7 +213,17 @@ def main(tier):
         for i, o in enumerate(outs):
             run.dist('bytes')
             if o['outcome'] == 'panic':
-                run.report(None, 'bytes-%d' % (i // 3), {'kind': 'bytes', 'panic': o.get('err'), 'file': open(os.path.join(h.tmp, 'b%d' % (i // 3), 'all.yaml'), errors='replace').read()[:4000]},
+                ftxt = open(os.path.join(h.tmp, 'b%d' % (i // 3), 'all.yaml'), errors='replace').read()
+                # the recorded hostIP finding reached through byte damage: a Pod document whose status.hostIP is no longer an IPv4 address
+                hostips = re.findall(r'"hostIP"\s*:\s*"([^"\n]*)"?', ftxt)
+                def _ipv4(x):
+                    try:
+                        return isinstance(ipaddress.ip_address(x), ipaddress.IPv4Address)
+                    except ValueError:
+                        return False
+                fid = 'c12-hostip-panic' if any(not _ipv4(x) for x in hostips) else None
+                run.report(fid, 'bytes-%d' % (i // 3), {'kind': 'bytes', 'panic': o.get('err'), 'command': cmds[i],
+                                                          'file': open(os.path.join(h.tmp, 'b%d' % (i // 3), 'all.yaml'), errors='replace').read()},
                            'panic on a damaged input file')
                 break
         run.count(nb)
